@@ -128,6 +128,8 @@ func vAnd(a, b bool) bool     { return a && b }
 func vOr(a, b bool) bool      { return a || b }
 func vImplies(a, b bool) bool { return !a || b }
 func vNativeSkip(why string)  {}
+func vRandConcrete(on bool)   {}
+func vTickers(on bool)        {}
 func vSched(on bool, maxSwitches int) {}
 func vRace(on bool)                   {}
 func vQuiesce()                       { time.Sleep(20 * time.Millisecond) }
